@@ -328,8 +328,12 @@ func (w *world) poolsOf(v6 bool) []*poolDef {
 // plumb redirects the process's stdout (the plugin prints its CNI result there) into a private file and, unless
 // SUT logging was asked for, stderr (utils.ConfigureLogging points logrus at os.Stderr on every call) to /dev/null.
 func (w *world) plumb() {
-	dir, err := os.MkdirTemp("", "verif-cni-")
-	if err != nil {
+	// Not os.MkdirTemp: it draws its random suffix from the runtime's (seeded) random stream, so two processes
+	// executing the same seed at the same time would collide, retry, and thereby shift every later map-iteration
+	// order of one of them.  The process id only names the directory; nothing is derived from it.
+	dir := fmt.Sprintf("%s/verif-cni-%d", os.TempDir(), os.Getpid())
+	os.RemoveAll(dir)
+	if err := os.Mkdir(dir, 0o700); err != nil {
 		w.r.HarnessError("cannot create temp dir: %v", err)
 	}
 	w.tmpDir = dir
